@@ -88,6 +88,9 @@ func New(t testing.TB, n int, withConnMgr bool) *Net {
 	sim.Start()
 	nw.Sim, nw.Hosts = sim, meta.Nodes
 	t.Cleanup(nw.Close)
+	// let every host's identify service finish starting: a stream handler set at the very instant
+	// the host was created can be missed by identify (the peer is then never seen as a pubsub peer)
+	Settle(10 * time.Millisecond)
 	return nw
 }
 
